@@ -203,6 +203,53 @@ vharness! {
     fn c13_stream_reader_mem() { stream_body(Ctor::ReaderStreamMem) }
 }
 
+// -- c13_stream_exact: read_exact after a partial read stays inside the content -----------------
+// @h c13_stream_exact | ByteRegion::stream; ByteStream::{read,read_exact,offset,size_left,size}; <[u8;N] as Source>::{read,read_exact} | 9 source bytes, region (offset>=1,size), a first read of 0..=8 bytes, then read_exact of 0..=8 bytes | read_exact succeeds exactly when the request fits what is left, returns the region's next bytes and advances by the request; otherwise it fails and the cursor never passes the content's end (no foreign bytes, offset <= size) | 1 read + 1 read_exact, source 9 bytes
+fn stream_exact_body() {
+    let (reader, data) = mk();
+    let (o1, s1) = sub(N as u64);
+    kani::assume(o1 >= 1);
+    let slice1 = reader.get_byte_slice(Offset::new(o1), Size::new(s1));
+    let region1: ByteRegion = slice1.into();
+    let mut stream: ByteStream = region1.stream();
+    let first: usize = kani::any();
+    kani::assume(first <= N);
+    let mut buf = [0u8; N];
+    let consumed = match stream.read(&mut buf[..first]) {
+        Ok(n) => n as u64,
+        Err(e) => {
+            forget(e);
+            assert!(false, "VERIF: stream read failed");
+            return;
+        }
+    };
+    assert!(consumed <= s1);
+    let left = s1 - consumed;
+    let want: usize = kani::any();
+    kani::assume(want <= N);
+    let mut buf2 = [0u8; N];
+    match stream.read_exact(&mut buf2[..want]) {
+        Ok(()) => {
+            assert!(want as u64 <= left, "VERIF: read_exact succeeded beyond the end of the content (foreign bytes)");
+            same_bytes(&buf2[..want], &data, o1 + consumed, want as u64);
+            assert!(stream.offset() == consumed + want as u64, "VERIF: read_exact did not advance by the request");
+        }
+        Err(e) => {
+            forget(e);
+            assert!(want as u64 > left, "VERIF: read_exact failed although the request fits");
+        }
+    }
+    assert!(stream.offset() <= s1, "VERIF: cursor beyond the end of the content");
+    assert!(stream.size() == s1, "VERIF: stream size changed");
+    assert!(stream.offset() + stream.size_left() == s1, "VERIF: offset + size_left != size");
+    kani::cover!(consumed > 0 && want as u64 > left && want as u64 <= s1, "request between left and size");
+    kani::cover!(consumed > 0 && want > 0 && want as u64 <= left, "fits");
+}
+vharness! {
+    #[kani::unwind(10)]
+    fn c13_stream_exact() { stream_exact_body() }
+}
+
 // -- c13_parser: random access parsers of the views read at region.begin + offset --------------
 fn parser_body(on_region: bool) {
     let (reader, data) = mk();
